@@ -20,6 +20,14 @@ def f(n, grouping, desc=12, timeout=1500, file_uri=0, meta=0):
         h.bounds["metadata"] = "one fixed JSON text with a per-cent sign"
     return h
 
+def frestart(timeout=1500):
+    h = f(1, 1, timeout=timeout)
+    h.name = "tiff_restart_step"
+    h.defines.append("DIRTY_START=1")
+    h.what = "restart step: the device object is as an arbitrary earlier acquisition left it (write cursor, link position, frame count, string-section offset all arbitrary 64-bit values); start + one frame + stop must produce the same valid one-directory file as on a fresh device"
+    h.bounds = dict(previous_state="arbitrary 64-bit values of last_offset, last_ifd_next_offset, frame_count, string-section offset", frames=1)
+    return h
+
 def fstep(timeout=1500):
     h = f(1, 1, timeout=timeout)
     h.name = "tiff_frame_step"
@@ -48,13 +56,13 @@ def harnesses(tier, findings):
         a = f(1, 1); a.solver = "kissat"; a.name += "_kissat"; a.timeout = 900
         return [a, f(1, 1, timeout=900)]
     if tier == "quick":
-        return [f(1, 1), f(1, 1, file_uri=1, meta=1), fstep(), fc(1, 1, timeout=1500, meta=1)]
-    return [f(1, 1), f(1, 1, file_uri=1, meta=1), f(2, 1, timeout=3000), f(2, 2, timeout=3000), f(1, 1, desc=30, timeout=3000), fstep(3000), fc(1, 1, timeout=3000, meta=1), fc(1, 1, timeout=3000, meta=0)]
+        return [f(1, 1), f(1, 1, file_uri=1, meta=1), fstep(), frestart(), fc(1, 1, timeout=1500, meta=1)]
+    return [f(1, 1), f(1, 1, file_uri=1, meta=1), f(2, 1, timeout=3000), f(2, 2, timeout=3000), f(1, 1, desc=30, timeout=3000), fstep(3000), frestart(3000), fc(1, 1, timeout=3000, meta=1), fc(1, 1, timeout=3000, meta=0)]
 
 META = dict(
     level="model_checking",
     bounds=dict(quick="N=1 frame, 8 image bytes, all widths/heights/types/ids/timestamps/pixels, plain and file:// URI; tiff-json composite with metadata, N=1", thorough="N=2 in both groupings, description length 30; tiff-json with and without metadata"),
-    outside="tiff-json: side_by_side_tiff_set/_start (std::filesystem) are modelled by hand after the source (the run refuses when that source text changes), so folder creation and path handling are not decided; Tiff::set's std::string handling beyond the two URIs; metadata other than the one fixed text; the TEXT vsnprintf renders (the model checks the format's key/conversion structure and the arguments, not libc's output); N>2; image bytes other than 8; repeated start/stop cycles (covered for descriptors by C16)",
+    outside="tiff-json: side_by_side_tiff_set/_start (std::filesystem) are modelled by hand after the source (the run refuses when that source text changes), so folder creation and path handling are not decided; Tiff::set's std::string handling beyond the two URIs; metadata other than the one fixed text; the TEXT vsnprintf renders (the model checks the format's key/conversion structure and the arguments, not libc's output); N>2; image bytes other than 8; restarts are covered by a step from an arbitrary earlier state of the writer object, not by running two acquisitions (file_create does not truncate: re-using the same file name is outside)",
     assumptions=["clang++-14 -O1 IR of tiff.cpp translated to C by ir2c/ir2c.py; every run checks the generated C against the g++ build on 6 scenarios (byte-identical files)",
                  "file layer modelled at the platform API; vsnprintf returns a fixed length, walks the format and records each argument with the JSON key that precedes its conversion", "allocation stubs return fixed-capacity objects", "HAL storage.c is the real code"],
 )
